@@ -39,7 +39,7 @@ type spvVec struct {
 	Cfg  struct {
 		EidSet      bool     `json:"eidSet"`
 		AudVal      string   `json:"audVal"`
-		CurIsAcs    bool     `json:"curIsAcs"`
+		Cur         string   `json:"cur"`
 		AllowIdp    bool     `json:"allowIdp"`
 		ReqVal      string   `json:"reqVal"`
 		Outstanding []string `json:"outstanding"`
@@ -131,6 +131,13 @@ func concStr(class, expected string, rng *rand.Rand) *string {
 		return sp(expected + "/")
 	case "query":
 		return sp(expected + "?x=1")
+	case "otherhost": // same path and query, another scheme / host / port
+		u := mustURL(expected)
+		alt := []string{"https://other-sp.example.net", "http://sp.example.com.evil.test:8080", "http://sp.example.com", "https://sp.example.com:8443"}[rng.Intn(4)]
+		if u.Host == "" {
+			return sp("https://other.example.net/" + expected)
+		}
+		return sp(alt + u.RequestURI())
 	case "prefix":
 		return sp(expected[:len(expected)-1-rng.Intn(4)])
 	case "suffix":
@@ -172,8 +179,11 @@ type spvCase struct {
 func spvConcretise(v *spvVec, now time.Time, rng *rand.Rand) *spvCase {
 	c := &spvCase{v: v, now: now}
 	c.cur = mustURL(spACS)
-	if !v.Cfg.CurIsAcs {
+	switch v.Cfg.Cur {
+	case "query":
 		c.cur = mustURL(spACS + "?foo=bar")
+	case "rel": // origin-form request line, as an http.Handler sees it
+		c.cur = mustURL("/saml/acs")
 	}
 	for _, o := range v.Cfg.Outstanding {
 		s, _ := spvReqID(o)
